@@ -1095,6 +1095,7 @@ class Frame(registering.StoriedRegistrar):
         """
         over = self.over
         under = self
+        climbed = [] #frames passed on the way up
 
         while over: #not beyond top
             if not isinstance(over, Frame): #over is name of frame not ref so resolve
@@ -1122,6 +1123,9 @@ class Frame(registering.StoriedRegistrar):
                 if over == self: #check for loop
                     raise excepting.ResolveError("Outline overs create loop", self.name, under.name)
 
+            if over in climbed: #loop that does not contain self
+                raise excepting.ResolveError("Outline overs create loop", self.name, over.name)
+            climbed.append(over)
             under = over
             over = over.over #rise one level
 
